@@ -1352,7 +1352,8 @@ package server
 //@   pure
 //@ unit (*Store).StoreObject
 //@   prop C14
-//@   requires s != nil
+//@   requires-inv [the-store-exists] s != nil
+//@   modifies $persisted, $storeAttempted, $valuesStored
 //@   ensures [C14:a-persisted-object-is-recorded-as-persisted] result == nil ==> $persisted == put(old($persisted), id, true)
 //@   ensures [C14:a-failed-write-is-not-recorded] result != nil ==> $persisted == old($persisted)
 //@   ensures $storeAttempted == put(old($storeAttempted), id, true)
@@ -1365,7 +1366,7 @@ package server
 //@     ghost $persisted := $result == nil ? put($persisted, id, true) : $persisted
 //@ unit (*Store).GetObject
 //@   prop C14
-//@   requires s != nil
+//@   requires-inv [the-store-exists] s != nil
 //@   safe slice
 //@   at call readValue#1 before
 //@     assert [C14:object-read-from-the-key-of-its-collection-and-id] isObjKey(key, collection, id)
@@ -1373,7 +1374,7 @@ package server
 //@     assert [C14:object-decoded-from-the-bytes-read] $arg0 == data
 //@ unit (*Store).DeleteObject
 //@   prop C14
-//@   requires s != nil
+//@   requires-inv [the-store-exists] s != nil
 //@   safe slice
 //@   at call deleteValue#1 before
 //@     assert [C14:object-deleted-under-the-key-of-its-collection-and-id] isObjKey(key, collection, id)
